@@ -243,6 +243,8 @@ pub fn verif_sort_by_bytes<T: HasBytes>(v: &mut Vec<T>)
 pub open spec fn flat_upto<T>(v: Seq<Vec<T>>, n: int) -> Seq<T> decreases n { if n <= 0 { Seq::empty() } else { flat_upto(v, n - 1) + v[n - 1]@ } }
 /// D13 target: `vv.concat()` on a Vec<Vec<T>> (std: the inner vectors one after the other)
 #[verifier::external_body] pub fn verif_concat_vecs<T: Clone>(v: &Vec<Vec<T>>) -> (r: Vec<T>) ensures r@ == flat_upto(v@, v@.len() as int) { unimplemented!() }
+/// extensionality for std Vec (exec `==`/clone work on the elements; this lifts view equality to spec equality); NOT in a default broadcast group
+pub broadcast axiom fn ax_vec_ext<T>(a: Vec<T>, b: Vec<T>) requires #[trigger] a@ == #[trigger] b@ ensures a == b;
 /// ASSUMED (Rust allocation limit): a Vec of a non-zero-sized element type holds at most isize::MAX bytes, hence at most isize::MAX elements
 pub axiom fn ax_vec_alloc_limit<T>(v: &Vec<T>) ensures v@.len() <= isize::MAX;
 /// D18 target: `a.min(b)` on primitive integers (`Ord::min`)
